@@ -220,3 +220,26 @@ Example C11_cursor_example :
   cursor_ok 1000000000 3600 (-1) /\
   update_loop 10 1000000000 3600 (1000000000 + 3 * 3600 + 3600) (-1) = Some ([0; 1; 2], 2).
 Proof. split; [unfold cursor_ok, two62, two63; vm_compute; repeat split; discriminate | vm_compute; reflexivity]. Qed.
+
+(* ---- "The credited amounts are a function of the chain alone, so every node computes the same ones": the epoch
+   statistics the pillar contract rewards from (consensus/points.go, model Points.v) do not depend on a node's past.
+   Two nodes that reached the same chain by ANY two histories (other branches seen and abandoned, other statistics
+   queries asked at other moments, restarts; stored points of abandoned branches still in their consensus DBs) answer
+   alike for every election tick and for every finished epoch — rewards are computed for epochs that ended at least
+   RewardTimeLimit ago. Hypotheses: hash collision freedom ([Hf] injective) and the election as a function of the
+   chain (C05). *)
+From ZV Require Points PointsProofs.
+Theorem C11_statistics_identical_on_all_nodes :
+  forall (gts dur mult : Z) (election : list Points.mom -> Z -> option Points.elect) (Hf : Z -> Z -> Z -> Z) (gen : Points.mom),
+  (forall a b c a' b' c' : Z, Hf a b c = Hf a' b' c' -> a = a' /\ b = b' /\ c = c') ->
+  (forall a b c : Z, Hf a b c <> Points.m_hash gen) -> 0 < dur -> 0 < mult ->
+  forall ops1 ops2,
+  PointsProofs.wf_ops gts dur mult election Hf (PointsProofs.init gen) ops1 ->
+  PointsProofs.wf_ops gts dur mult election Hf (PointsProofs.init gen) ops2 ->
+  let s1 := fst (Points.run gts dur mult election (PointsProofs.init gen) ops1) in
+  let s2 := fst (Points.run gts dur mult election (PointsProofs.init gen) ops2) in
+  Points.n_chain s1 = Points.n_chain s2 ->
+  (forall t, snd (Points.step gts dur mult election s1 (Points.OPeriod t)) = snd (Points.step gts dur mult election s2 (Points.OPeriod t))) /\
+  (forall e, Points.is_finished gts (Points.n_chain s1) (Points.edur dur mult) e = true ->
+             snd (Points.step gts dur mult election s1 (Points.OEpoch e)) = snd (Points.step gts dur mult election s2 (Points.OEpoch e))).
+Proof. exact PointsProofs.reachable_nodes_agree. Qed.
